@@ -37,7 +37,7 @@ def info_preserving(km, has_varargs):
 
 
 @st.composite
-def edits(draw, rest, b, vals):
+def edits(draw, rest, b, vals, sibling=None):
     """(B1', B2, kind): B1' is b possibly with a slot overwritten (for look-alike/twin pairs), B2 one edit away"""
     b1 = copy.deepcopy(b)
     b2 = copy.deepcopy(b)
@@ -48,6 +48,12 @@ def edits(draw, rest, b, vals):
         structural += ['add_xpos'] + (['drop_xpos'] if b.get('xpos') else [])
     if rest.get('varkw'):
         structural += ['add_xkw'] + (['drop_xkw'] if b.get('xkw') else [])
+    named_slots = [x for x in slots if x[0] in ('named', 'kwonly', 'xkw')]
+    if len(named_slots) >= 2:
+        structural = structural + ['twin_swap']
+    omitted_opt = [n for n, _ in rest.get('opt', []) if n not in [k for k, _ in b.get('named', [])]]
+    if sibling and omitted_opt and not b.get('xpos'):
+        structural = structural + ['sibling_default', 'sibling_default']
     choice = draw(st.sampled_from(['value', 'value', 'lookalike', 'lookalike', 'twin'] + structural)) if slots else \
         draw(st.sampled_from(structural)) if structural else 'none'
     if choice in ('value', 'lookalike', 'twin'):
@@ -66,6 +72,16 @@ def edits(draw, rest, b, vals):
             put(b1, x)
             put(b2, y)
         return b1, b2, '%s:%s' % (choice, kind)
+    if choice == 'twin_swap':
+        (k1, i1), (k2, i2) = draw(st.permutations(named_slots))[:2]
+        x, y = draw(st.sampled_from(TWINS))
+        b1[k1][i1][1], b1[k2][i2][1] = x, y
+        b2[k1][i1][1], b2[k2][i2][1] = y, x
+        return b1, b2, 'twin_swap'
+    if choice == 'sibling_default':
+        n = omitted_opt[draw(st.integers(0, len(omitted_opt) - 1))]
+        b2['named'].append([n, dict(sibling)[n]])
+        return b1, b2, 'sibling_default'
     if choice == 'add_xpos':
         b2.setdefault('xpos', []).append(draw(vals))
     elif choice == 'drop_xpos':
@@ -90,13 +106,17 @@ def cases(draw, path, focus=None):
     nfix = draw(st.integers(0, len(sig['req']))) if kind == 'partial' else 0
     rest = rest_sig(sig, nfix, [])
     b = draw(S.bindings(rest, vals, force_xpos=(focus == 'varargs' and draw(st.integers(0, 3)) > 0)))
-    b1, b2, ek = draw(edits(rest, b, vals))
+    sibling = None
+    if kind == 'function' and sig['opt'] and draw(st.integers(0, 2)) == 0:
+        # a sibling function object sharing the code object but with other defaults (closure factory / lambda-in-a-loop shape)
+        sibling = [[n, draw(vals)] for n, _ in sig['opt']]
+    b1, b2, ek = draw(edits(rest, b, vals, sibling))
     kms = [k for k in KEYMAPS if info_preserving(k, bool(sig['varargs']))]
     if focus == 'varargs':
         kms = [k for k in kms if k['flat']]
     km = draw(st.sampled_from(kms))
     module = 'safe' if (km['cls'] == 'keymap' and not km['flat']) else draw(st.sampled_from(['std', 'safe']))
-    return {'sig': sig, 'kind': kind, 'nfix': nfix, 'fixed': [draw(vals) for _ in range(nfix)], 'pkw': [], 'b1': b1, 'b2': b2, 'edit': ek,
+    return {'sig': sig, 'kind': kind, 'nfix': nfix, 'fixed': [draw(vals) for _ in range(nfix)], 'pkw': [], 'b1': b1, 'b2': b2, 'edit': ek, 'sibling': sibling,
             'form1': draw(st.integers(0, 255)), 'form2': draw(st.integers(0, 255)), 'keymap': km, 'path': path, 'module': module,
             'algo': draw(st.sampled_from(['inf', 'lru', 'lfu', 'mru', 'rr']))}
 
@@ -165,6 +185,23 @@ def run_case(case):
     km = H.make_keymap(km_spec)
     path = case['path']
     tag = kmtag(case)
+    if case.get('sibling') and case['kind'] == 'function':
+        import types
+        sib = types.FunctionType(target.__code__, target.__globals__, target.__name__,
+                                 tuple(V.build(v) for _, v in case['sibling']), target.__closure__)
+        sib.__kwdefaults__ = target.__kwdefaults__
+        classes.append('sibling_keyed_first')
+        try:
+            sa, sk = S.spell_full(rest, case['b1'], 0)
+            if path in ('fkey', 'call'):
+                H.decorator_class(case['module'], case['algo'])(keymap=km)(sib).key(*sa, **sk)
+            elif path == 'keygen':
+                klepto.keygen(keymap=km)(sib)(*sa, **sk)
+            else:
+                klepto._keygen(sib, (), *sa, **sk)
+        except Exception as e:
+            out.append(Discrepancy('C10/%s/sibling-raised/%s' % (path, H.exc_sig(e)), repr(e)))
+            return out, None, classes
     try:
         if path in ('fkey', 'call'):
             f = H.decorator_class(case['module'], case['algo'])(keymap=km)(target)
@@ -205,7 +242,7 @@ def run_case(case):
     return out, nt, classes
 
 
-REQUIRED_CLASSES = ['unequal_pair', 'twin_typed', 'edit:lookalike', 'edit:add_xpos', 'edit:add_xkw', 'nt:xpos', 'nt:xkw', 'nt:kwonly', 'kind:method', 'kind:partial']
+REQUIRED_CLASSES = ['unequal_pair', 'twin_typed', 'edit:twin_swap', 'edit:sibling_default', 'sibling_keyed_first', 'edit:lookalike', 'edit:add_xpos', 'edit:add_xkw', 'nt:xpos', 'nt:xkw', 'nt:kwonly', 'kind:method', 'kind:partial']
 
 
 def trig_flat_str_unwrap(case, discr):
